@@ -311,3 +311,63 @@ def replay_idle_clause(ctx, res, prop, clause_id, title):
                         'a replay can end (%s) with per-run state left behind (%s): the next recording or replay on this recorder numbers its '
                         'outputs from the stale counter / sees stale outputs' % (ek, '; '.join(sorted(bad))), witness=d.path_to(n, s), exit=ek))
     return okall
+
+
+def interception_flag_clause(ctx, res, prop, clause_id, variants=('recording', 'playback')):
+    """shared obligation (also decided by C09.c): every exit of the input / output decorators - including the exits taken when
+    the intercepted function raises - leaves the thread-local in-interception flag false; otherwise every later interception
+    on that thread is skipped (bodies run live in replay, outputs are not captured, recordings miss entries)"""
+    from ..report import Finding
+    roles = ctx.roles
+    c = res.clause(clause_id, 'R-TYPESTATE', 'in-interception flag false at every exit of the input / output decorators', floor=2)
+    for kind in ('input', 'output'):
+        fac, deco, cl = roles.closures[kind]
+        bad = None
+        n_exits = 0
+        for variant in variants:
+            d = run_closure(ctx, kind, variant)
+            c.evaluations += d.visited_pairs
+            for n, s in d.exits:
+                n_exits += 1
+                for k, v in s.env.items():
+                    if k[0] == 'F' and k[2] == 'currently_in_interception' and v.kind != 'false':
+                        bad = bad or (d, n, s, v.kind, variant)
+        c.instance('%s decorator: flag false on %d exits' % (kind, n_exits), cl.qualname, bad is None)
+        if bad:
+            d, n, s, k, variant = bad
+            res.add(Finding(prop, clause_id, 'R-TYPESTATE', cl.file, cl.qualname, cl.node.lineno,
+                            '%s decorator leaves the in-interception flag %s (exit %s)' % (kind, k, exit_kind(n)),
+                            'the %s decorator can be left (%s, %s valuation) with the thread-local in-interception flag still set: every later '
+                            'interception on this thread is skipped' % (kind, exit_kind(n), variant), witness=d.path_to(n, s), exit=exit_kind(n)))
+
+
+def stateful_constructs(func):
+    """constructs by which a helper keeps state across calls: stores into module / class level objects, `global`, mutation of
+    module-level containers, memoisation decorators"""
+    out = []
+    mod = func.module
+    cls_names = set(mod.classes)
+    for d in func.decorators:
+        if d.split('.')[-1] in ('lru_cache', 'cache', 'cached', 'memoize', 'memoized'):
+            out.append((func.node, 'memoisation decorator @%s' % d))
+    for n in ast.walk(func.node):
+        if isinstance(n, ast.Global):
+            out.append((n, 'global statement'))
+        targets = []
+        if isinstance(n, ast.Assign):
+            targets = n.targets
+        elif isinstance(n, ast.AugAssign):
+            targets = [n.target]
+        for t in targets:
+            base = t
+            while isinstance(base, (ast.Subscript, ast.Attribute)):
+                base = base.value
+            if isinstance(base, ast.Name) and (base.id in mod.globals or base.id in cls_names) and not isinstance(t, ast.Name):
+                out.append((n, 'store into module / class level object `%s`' % base.id))
+        if isinstance(n, ast.Call) and isinstance(n.func, ast.Attribute) and n.func.attr in ('add', 'append', 'update', 'setdefault', 'pop', 'clear', 'discard', 'remove'):
+            base = n.func.value
+            while isinstance(base, (ast.Subscript, ast.Attribute)):
+                base = base.value
+            if isinstance(base, ast.Name) and (base.id in mod.globals or base.id in cls_names):
+                out.append((n, 'mutation of module / class level object `%s`' % base.id))
+    return out
